@@ -20,7 +20,7 @@ def cb_groups(ctx):
     metamorphic(ctx, groups, "callback", ("res", "peer"), "presence or failure of the progress callback changed what push sent", "callback-irrelevance")
 
 
-Unit([("push", scen.gen_push, 4), ("reconnect", scen.gen_reconnect_push, 1)], (oracles.o_c07, oracles.o_c02) + COMMON,
+Unit([("push", scen.gen_push, 4), ("reconnect", scen.gen_reconnect_push, 1)], (oracles.o_c07, oracles.o_c02, oracles.o_lean_c07) + COMMON,
      "push of BytesIO / real file / real directory (pushed from a different working directory) with sizes {0,1,chunk-1,chunk,chunk+1,2*chunk,maxdata-1,"
      "maxdata,maxdata+1,65535..65537; thorough: 300000}, maxdata {4096,8192,131072,262144,1MiB}, path lengths {1,60,1000}, modes and mtimes at 32-bit edges, "
      "callback {none, counting, raising}; the simulator's filesystem reassembles the sync stream; the same push with each callback mode must send identical "
